@@ -37,8 +37,11 @@ def canon_place(body, pl, depth=0):
         if src is not None:
             new = {"l": src["l"], "p": list(src["p"]) + proj}
             return canon_place(body, new, depth + 1)
-    if rv["k"] == "cast" and rv["kind"].startswith("PointerCoercion") is False and "Transmute" not in rv["kind"]:
-        pass
+    if rv["k"] == "cast" and rv["kind"].startswith("PointerCoercion"):
+        src = op_place(rv["op"])
+        if src is not None:
+            new = {"l": src["l"], "p": list(src["p"]) + proj}
+            return canon_place(body, new, depth + 1)
     return pl
 
 
